@@ -11,7 +11,7 @@ def builds(tier):
 def run(chk):
     asan = vlib.build(SRC, 'asan')
     T = chk.thorough()
-    n = 500000 if T else 40000
+    n = 300000 if T else 40000
     chk.absorb(vlib.run_sharded(asan, n, chk.seed, chk.tier, [], tag='c10'), 'arrangements x variants through area::Assembler (asan)')
     chk.assumptions = [
         'ground truth = brute-force classification of the input segment multiset reduced mod 2 with exact __int128 predicates '
@@ -23,10 +23,12 @@ def run(chk):
         'rings closed = first and last location equal (node ids may differ when several nodes share a location)',
         'ring sets are compared across variants only for arrangements without touching points (unique decomposition); with touching '
         'points every variant is checked on its own (validity, nesting parity, segment conservation)',
-        'coordinates within +-2^29']
+        'coordinates within +-2^29',
+        'budget: three of four dense arrangements with 14..23 touching points are dropped (one assembler call can take seconds of CPU there: '
+        'exhaustive search just below the recursion limit of 20 in join_connected_rings); diagonal chains of any length are kept']
     return chk.finish('exploration',
                       'random constructive arrangements (cell complexes on jittered/sheared integer lattices with 1-4 XOR-ed pieces: nested '
-                      'frames, checkerboards, diagonal chains up to 100 touching points, holes, blobs; nested star-shaped and orthogonal polygons '
+                      'frames, checkerboards, necklaces, diagonal chains up to 100 touching points, holes, blobs; nested star-shaped and orthogonal polygons '
                       'up to 96 vertices per ring, up to 420 segments), 40% with an injected defect (crossing triangle, removed segment, '
                       'collinear overlap); each cut into ways in base + 3 (quick) / + 8 (thorough) variants (member order, way direction, '
                       're-cutting incl. one way per segment and one closed way, roles, node ids, config, way vs relation interface). '
